@@ -4,7 +4,7 @@
    `h_run step s ops` is the model's history (call, result) for the call list `ops` from state `s`, with the final state;
    `outs h` are the items handed out in the history `h`, in time order. *)
 From Coq Require Import ZArith List Bool Sorting.Permutation.
-Require Import C12_Base C12_Pipe C12_MQ C12_Sync C12_Pri C12_Check C12_Order C12_MQBound.
+Require Import C12_Base C12_Pipe C12_MQ C12_Sync C12_Pri C12_Check C12_Order C12_MQBound C12_More.
 Import ListNotations.
 
 (* ================= the tie: whatever the driver accepts satisfies the monitor ================= *)
@@ -265,6 +265,43 @@ Theorem c12_ex_race_bad_witness :
   pr_accept KMux 0%Z [(PClose, RDone, 1%Z, 2%Z); (PAdd 7%Z, RDone, 3%Z, 4%Z); (PPopAnyway, RItem 7%Z, 5%Z, 6%Z)] [1; 0; 2]%nat = false.
 Proof. exact ex_race_bad_witness. Qed.
 
+(* ================= constructor histories and the parallel PriQueue class (C12_More.v) ================= *)
+(* several queues built one after the other, each judged against the model of ITS OWN options: accepted groups satisfy the monitors *)
+Theorem c12_group_pipe_sound : forall l, pg_accept l = true -> pg_holds l = true.
+Proof. exact pg_accept_sound. Qed.
+Theorem c12_group_mq_sound : forall l, mg_accept l = true -> mg_holds l = true.
+Proof. exact mg_accept_sound. Qed.
+(* a pipe queue built without a size option (capacity 0) never refuses an add as full, over every history *)
+Theorem c12_pipe_unbounded_never_full : forall k ops,
+  Forall (fun e => snd e <> RFull) (fst (h_run p_step (p_new k (optcap None)) ops)).
+Proof. exact p_unbounded_never_full. Qed.
+Theorem c12_ex_group_leaked_option :
+  pg_holds [(KQ, Some 2%Z, [(PAdd 1%Z, RDone)]); (KQ, None, [(PAdd 2%Z, RDone); (PAdd 3%Z, RDone); (PAdd 4%Z, RFull)])] = false.
+Proof. exact ex_pg_leaked_option. Qed.
+Theorem c12_ex_group_ok :
+  pg_accept [(KQ, Some 2%Z, [(PAdd 1%Z, RDone); (PAdd 5%Z, RDone); (PAdd 6%Z, RFull)]); (KQ, None, [(PAdd 2%Z, RDone); (PAdd 3%Z, RDone); (PAdd 4%Z, RDone)])] = true.
+Proof. exact ex_pg_ok. Qed.
+(* nil (written -1) is an item like any other for the pipe queues; reporting it as an error is rejected *)
+Theorem c12_ex_nil_item :
+  p_accept KMux 1%Z [(PAdd (-1)%Z, RDone); (PAdd 2%Z, RFull); (PPop, RItem (-1)%Z); (PPrior (-1)%Z, RDone); (PPrior (-1)%Z, RDone);
+                     (PClose, RDone); (PPopAnyway, RItem (-1)%Z); (PPopAnyway, RItem (-1)%Z); (PPopAnyway, RClosed)] = true.
+Proof. exact ex_nil_item. Qed.
+Theorem c12_ex_nil_item_reported_as_error : p_holds 1%Z [(PAdd (-1)%Z, RDone); (PPop, ROther 1%Z)] = false.
+Proof. exact ex_nil_item_reported_as_error. Qed.
+(* parallel PriQueue rounds: the clauses accept a legal overlap and reject a recycled wrapper (item 1 lost, 3 handed out twice)
+   and a lower priority jumping the queue *)
+Theorem c12_ex_par_ok :
+  pp_holds [(QPush 1%Z 1%Z, RDone, 1%Z, 4%Z); (QPush 5%Z 2%Z, RDone, 2%Z, 3%Z); (QPop, RItem 2%Z, 5%Z, 8%Z); (QPop, RItem 1%Z, 6%Z, 7%Z);
+            (QPop, RNone, 9%Z, 10%Z)] = true.
+Proof. exact ex_pp_ok. Qed.
+Theorem c12_ex_par_recycled_wrapper :
+  pp_holds [(QPush 1%Z 1%Z, RDone, 1%Z, 2%Z); (QPop, RItem 3%Z, 3%Z, 6%Z); (QPush 1%Z 3%Z, RDone, 4%Z, 5%Z); (QPop, RItem 3%Z, 7%Z, 8%Z);
+            (QPop, RNone, 9%Z, 10%Z)] = false.
+Proof. exact ex_pp_recycled_wrapper. Qed.
+Theorem c12_ex_par_low_priority_first :
+  pp_holds [(QPush 5%Z 1%Z, RDone, 1%Z, 2%Z); (QPush 1%Z 2%Z, RDone, 3%Z, 4%Z); (QPop, RItem 2%Z, 5%Z, 6%Z); (QPop, RItem 1%Z, 7%Z, 8%Z)] = false.
+Proof. exact ex_pp_low_priority_first. Qed.
+
 (* ================= non-vacuity ================= *)
 Theorem c12_ex_pipe_accept :
   case_accept (CPipe KQ 2%Z [(PAdd 1%Z, RDone); (PAdd 2%Z, RDone); (PAdd 3%Z, RFull); (PPrior 9%Z, RDone); (PPop, RItem 9%Z);
@@ -349,6 +386,16 @@ Print Assumptions c12_ex_race_m1_rejected.
 Print Assumptions c12_ex_race_refused_accepted.
 Print Assumptions c12_ex_race_before_close_accepted.
 Print Assumptions c12_ex_race_bad_witness.
+Print Assumptions c12_group_pipe_sound.
+Print Assumptions c12_group_mq_sound.
+Print Assumptions c12_pipe_unbounded_never_full.
+Print Assumptions c12_ex_group_leaked_option.
+Print Assumptions c12_ex_group_ok.
+Print Assumptions c12_ex_nil_item.
+Print Assumptions c12_ex_nil_item_reported_as_error.
+Print Assumptions c12_ex_par_ok.
+Print Assumptions c12_ex_par_recycled_wrapper.
+Print Assumptions c12_ex_par_low_priority_first.
 Print Assumptions c12_ex_pipe_accept.
 Print Assumptions c12_ex_pipe_bound_off_by_one.
 Print Assumptions c12_ex_pipe_prior_at_back.
